@@ -112,6 +112,10 @@ func genName(r *mon.Rng, legacy, m20 string) string {
 			segs = append(segs, r.Pick(plainTok)+strconv.Itoa(r.Intn(100)))
 		case x < 7:
 			segs = append(segs, r.Pick(plainTok)+r.Pick([]string{"_", "-"})+r.Pick(plainTok))
+		case x < 8:
+			// runs of one character: a literal rule whose replacement ends with the start of `old`
+			// ("aa"->"ba", "__"->"._", "oo"->"fo") must not re-scan what it has just written
+			segs = append(segs, r.Pick([]string{"aaaa", "aaa", "a___b", "x__y", "oooo", "fooo", "aaaaa", "dc1___web1"}))
 		default:
 			segs = append(segs, r.Pick(plainTok))
 		}
@@ -221,6 +225,11 @@ func genRules(r *mon.Rng) []oracle.RewriteRule {
 			ru = oracle.RewriteRule{Old: r.Pick(litOld), New: r.Pick(litNew), Max: r.PickInt([]int{-1, -1, 0, 1, 1, 2, 3, 7})}
 			if ru.Max >= 1 && r.Bool() {
 				ru.Old = r.Pick([]string{"a", "o", ".", "0", "aa", "foo", "r"}) // occurs several times in most names: max matters
+			}
+			if r.Chance(1, 6) {
+				// same-length pairs where a suffix of `new` is a prefix of `old`
+				p := [][2]string{{"aa", "ba"}, {"__", "._"}, {"..", "_."}, {"oo", "fo"}, {"aa", "xa"}, {"aaa", "baa"}}[r.Intn(6)]
+				ru.Old, ru.New = p[0], p[1]
 			}
 		}
 		switch r.Intn(10) {
